@@ -684,14 +684,23 @@ def model_expr(c):
     return "(run_%s %s)" % (g, cp(c["s"]))
 
 
+def eval_exprs(tag, exprs, est):
+    """Kernel evaluation of the expressions.  vlib.coq_eval_lines reads a shard's output only after coqc has
+    exited, so one shard must stay well below the 64 KiB pipe buffer: the shard size is chosen from the
+    estimated output sizes `est` (and as large as possible: coqc start-up dominates small shards)."""
+    n = len(exprs)
+    k = min(1500, max(50, -(-n // vlib.NPROC)))
+    while k > 10 and max(sum(est[i:i + k]) for i in range(0, n, k)) > 40000:
+        k = int(k * 0.8)
+    return vlib.coq_eval_lines(tag, IMPORTS, "", exprs, shard=k)
+
+
 def model_eval(tag, cases):
-    # coqc start-up dominates small shards: one wave of at most NPROC shards when possible
-    shard = min(1500, max(250, -(-len(cases) // vlib.NPROC)))
-    return vlib.coq_eval_lines(tag, IMPORTS, "", [model_expr(c) for c in cases], shard=shard)
+    return eval_exprs(tag, [model_expr(c) for c in cases], [len(c["s"].encode("utf-8")) + 16 for c in cases])
 
 
 def model_run_strings(tag, g, strs):
-    return vlib.coq_eval_lines(tag, IMPORTS, "", ["(run_%s %s)" % (g, cp(s)) for s in strs], shard=400)
+    return eval_exprs(tag, ["(run_%s %s)" % (g, cp(s)) for s in strs], [len(s.encode("utf-8")) + 16 for s in strs])
 
 
 def shrink(g, s, rounds=6):
